@@ -28,6 +28,7 @@ RULE = ('cases = one routine of a 61-entry registry of the numerical API with '
         'under every fill and (for the masked-cell routines) contained a '
         'masked cell; distinct by (routine, argument hash)')
 REQUIRED = ['routine_calls', 'differentials_compared', 'bytes_poisoned',
+            'worker_count_differentials',
             'masked_ufunc_calls_censused']
 ASSUMPTIONS = ['the allocator hook covers NumPy array data only (not SciPy '
                'C workspaces, not Python objects)',
@@ -38,10 +39,13 @@ def shards(tier):
     if tier == 'quick':
         return [dict(kind='diff', n=1350, parts=15, timeout=1200, poison=True),
                 dict(kind='diff', n=90, parts=1, timeout=1200, poison=True,
-                     variant='asan', start=500000)]
+                     variant='asan', start=500000),
+                dict(kind='workers', n=24, parts=4, timeout=1200,
+                     start=700000)]
     return [dict(kind='diff', n=36000, parts=15, timeout=3400, poison=True),
             dict(kind='diff', n=2000, parts=1, timeout=3400, poison=True,
-                 variant='asan', start=500000)]
+                 variant='asan', start=500000),
+            dict(kind='workers', n=400, parts=8, timeout=3400, start=700000)]
 
 
 # --------------------------------------------------------------------------
@@ -492,7 +496,92 @@ def call(fn, args, kwargs):
     return out, fz.changed()
 
 
+def bace_counts(rng, n):
+    """Blocky transition counts with a few poorly sampled states."""
+    k = int(rng.integers(2, 6))
+    lab = rng.integers(0, k, size=n)
+    P = np.where(lab[:, None] == lab[None, :], 0.5, 0.02)
+    C = rng.poisson(P * rng.integers(5, 200, size=(n, 1))).astype(float)
+    C[np.arange(n), np.arange(n)] += rng.integers(1, 50, size=n)
+    low = rng.random(n) < 0.1
+    if low.any():
+        C[low] = (C[low] > 0) * (rng.random((int(low.sum()), n)) < 0.1)
+        C[:, low] = C[:, low] * (rng.random((n, int(low.sum()))) < 0.1)
+    return C
+
+
+def run_workers(ctx, rng, idx):
+    """Routines that farm work out to worker processes: the result may not
+    depend on the number of workers, on the order in which they finish, or
+    on repeating the call."""
+    from enspara.msm import bace
+    from vf.monitor import Frozen
+    n = int(rng.integers(8, 25)) if idx % 3 == 0 else \
+        int(rng.integers(60, 160))
+    C = bace_counts(rng, n)
+    nm = int(rng.integers(2, 5))
+    chunk = [100, 100, 7, 25][int(rng.integers(0, 4))]
+    procs = [int(x) for x in rng.permutation([2, 3, 4, 5, 7])[:3]]
+    ctx.describe({'routine': 'bace', 'n_states': n, 'n_macrostates': nm,
+                  'chunk_size': chunk, 'n_procs': procs,
+                  'C': C if n <= 10 else 'elided'})
+
+    def digest(res):
+        bf, labels = res
+        return (tuple((k, float(bf[k])) for k in sorted(bf)),
+                tuple((k, tuple(int(x) for x in labels[k]))
+                      for k in sorted(labels)))
+
+    def run_bace(p):
+        arg = C.copy()
+        fz = Frozen(arg)
+        out = digest(bace.bace(arg, nm, chunk_size=chunk, n_procs=p))
+        if fz.changed():
+            ctx.violation('pure.bace.mutates-argument',
+                          'bace(n_procs=%d) modified its count matrix' % p)
+        return out
+
+    def run_prune(p):
+        c, labels, keep = bace.baysean_prune(C.copy(), n_procs=p)
+        return (np.asarray(c).tobytes(), tuple(int(x) for x in labels),
+                tuple(int(x) for x in keep))
+    for name, fn in (('bace', run_bace), ('baysean_prune', run_prune)):
+        try:
+            base = fn(1)
+        except Exception as e:  # noqa
+            ctx.count('workers_routine_raised')
+            ctx.seen('consistent_exceptions', '%s:%s' % (name,
+                                                         type(e).__name__))
+            continue
+        ctx.count('routine_calls')
+        for p in procs + [procs[0], 1]:
+            try:
+                out = fn(p)
+            except Exception as e:  # noqa
+                ctx.violation('pure.%s.raises-with-workers' % name,
+                              'n_procs=%d: %s: %s' % (p, type(e).__name__,
+                                                      str(e)[:200]))
+                continue
+            ctx.count('routine_calls')
+            ctx.count('worker_count_differentials')
+            if out != base:
+                what = 'result'
+                if name == 'bace':
+                    what = 'Bayes factors' if out[0] != base[0] else 'lumping'
+                ctx.violation(
+                    'pure.%s.depends-on-worker-count' % name,
+                    '%s with n_procs=%d: %s differs from n_procs=1 (%d '
+                    'states, chunk_size=%d)' % (name, p, what, n, chunk))
+                break
+        ctx.seen('routines', name + '[workers]')
+    ctx.count('differentials_compared')
+    if n >= 60:
+        ctx.nontriv('bace', C.tobytes(), nm, chunk)
+
+
 def run_case(ctx, kind, rng, idx):
+    if kind == 'workers':
+        return run_workers(ctx, rng, idx)
     names = sorted(ctx.registry)
     name = names[int(rng.integers(0, len(names)))]
     gen, fn = ctx.registry[name]
